@@ -684,9 +684,15 @@ pub fn build_chunk(chunk: usize, nchunks: usize) {
         src.push_str(&emit::universe_source(&u));
         src.push_str(&emit::universe_source(&u2));
         let text: String = u.defs.iter().map(|d| emit::def_source(d, &u)).collect::<Vec<_>>().join("");
-        src.push_str(&format!("g_derive_rt::root_checks!(checks_s{}, {}, {}, {});\n", i, emit::root_type(&u), emit::root_type(&u2), emit::count_root_optionals(&u)));
-        roots.push_str(&format!("        g_derive_rt::RootEntry {{ id: {}, name: {}, source: {}, optionals: {}, c07: checks_s{}::c07, c08: checks_s{}::c08, c09: checks_s{}::c09, presence: checks_s{}::presence }},\n",
-                                i, rust_str(u.defs.last().unwrap().name()), rust_str(&text), emit::count_root_optionals(&u), i, i, i, i));
+        // every definition of the universe is a check root (the last one is "the" root; the others would otherwise only be
+        // exercised where a later definition happens to use them)
+        for k in 0 .. u.defs.len() {
+            let last = k + 1 == u.defs.len();
+            let m = if last { format!("checks_s{}", i) } else { format!("checks_s{}_{}", i, k) };
+            src.push_str(&format!("g_derive_rt::root_checks!({}, {}, {}, {});\n", m, emit::def_type(&u, k), emit::def_type(&u2, k), emit::count_def_optionals(&u, k)));
+            roots.push_str(&format!("        g_derive_rt::RootEntry {{ id: {}, name: {}, source: {}, optionals: {}, c07: {m}::c07, c08: {m}::c08, c09: {m}::c09, presence: {m}::presence }},\n",
+                                    i * 8 + if last { 7 } else { k }, rust_str(u.defs[k].name()), rust_str(&text), emit::count_def_optionals(&u, k), m = m));
+        }
     }
     for i in (0 .. npairs).filter(|i| i % nchunks == chunk) {
         let mut r = Rng::new(seed.wrapping_mul(7_000_003).wrapping_add(0x5EED_0000 + i as u64));
